@@ -526,9 +526,29 @@ def b_validation_defaults(S):
     hits = [n for n in ast.walk(find_func(tree, "Validation.run_validation")) if isinstance(n, ast.keyword) and n.arg == "extend_bounds_by"]
     if len(hits) != 1:
         raise Untranslatable("extend_bounds_by keyword not found in run_validation")
-    C = {f"self.{w}": w for w in want}
+    C = {f"self.{w}": w + "_" for w in want}
     T = {f"self.{w}": "Rat" for w in want}
-    out += "\n" + translate_expression(S[TVAL], hits[0].value, "candidate_window_margin", {}, "Rat", C, types=T, default_num="Rat")
+    P = {"SNAP_THRESHOLD_": "Rat", "SNAP_THRESHOLD_ERROR_MULTIPLIER_": "Rat", "STACKED_DETECTOR_BUFFER_MULTIPLIER_": "Rat"}
+    out += "\n/-- window extension passed to determine_trace_candidates, as a function of the thresholds -/\n"
+    out += translate_expression(S[TVAL], hits[0].value, "candidate_window_margin", P, "Rat", C, types=T, default_num="Rat")
+    return out
+
+
+def b_index_margins(S):
+    """margins of the other spatial-index windows"""
+    out = ""
+    # boundary candidates: extend_amount = snap_threshold * 100
+    hits = find_expressions(S[GENERAL], "determine_boundary_intersecting_lines", r"snap_threshold \* [0-9.]+")
+    if len(hits) != 1:
+        raise Untranslatable("boundary window margin not found")
+    out += translate_expression(S[GENERAL], hits[0], "boundary_window_margin", {"snap_threshold": "Rat"}, "Rat", {}, default_num="Rat")
+    out += "\n" + translate_function(S[GENERAL], "extend_bounds", "extend_bounds",
+                                      {"min_x": "Rat", "min_y": "Rat", "max_x": "Rat", "max_y": "Rat", "extend_amount": "Rat"}, "Rat × Rat × Rat × Rat", {}, default_num="Rat")
+    # proximal traces: buffer_value * 5
+    hits = find_expressions(S[PROX], "determine_proximal_traces", r"buffer_value \* [0-9.]+")
+    if len(hits) < 1:
+        raise Untranslatable("proximal window margin not found")
+    out += "\n" + translate_expression(S[PROX], hits[0], "proximal_window_margin", {"buffer_value": "Rat"}, "Rat", {}, default_num="Rat")
     return out
 
 
@@ -663,6 +683,7 @@ ITEMS: List[Item] = [
     Item("ValidationDefaults", TVAL, ["C10", "C03", "C16"], b_validation_defaults),
     Item("CacheDecorated", GENERAL, ["C17"], b_cache_decorated, extra_modules=[m for m in ALL_MODULES if m != GENERAL]),
     Item("Grid", GRID, ["C18"], b_grid),
+    Item("IndexMargins", GENERAL, ["C16"], b_index_margins, extra_modules=[PROX]),
     Item("RandomRadius", RSAMP, ["C20"], b_random_radius, extra_modules=[GENERAL]),
     Item("AggregateDispatch", SUBS, ["C20"], b_aggregate_dispatch),
 ]
